@@ -37,6 +37,8 @@ def explore(res, rng, n, exhaustive=None):
             cases.append((h, rng.choice([-1, -1, -2, -3])))
     for h, s in cases:
         cyc.hist_stats(res, h)
+    # the number of digits is read from globalConfig at call time: change it and compare each table with its own cycle list
+    cyc.config_stream(res, cyc.NAMES, [c for c in cases if c[1] < 0][: max(20, n // 12)])
     runs = cyc.correspondence(res, cyc.NAMES, cases, pred)
     for name, h, s, out in runs:
         res.stat('counter_' + name)
